@@ -315,3 +315,8 @@ LEVEL_TEXT = ("Decided by SMT/path enumeration over the real MIR of the block-ve
 LEVEL_NOTE = "Partial claim (cache-hit path of BlockTxsVerifier). Store caches, tx-pool async path, containers: outside."
 TECHNIQUE = "symbolic execution of rustc MIR (path enumeration with environment symbols) -> SMT (cvc5 + z3)"
 DESIGN_REF = "DESIGN.md section 4 (C14)"
+
+# ---- extended claim (session 3)
+BOUNDS = dict(BOUNDS, m2="verify_rtx: the async fn's coroutine body executed from its initial state; the awaited verify_with_pause future completes (its result is an environment symbol)", m3="15 write methods of StoreTransaction; loops over block parts / cell lists bounded to one item")
+LEVEL_TEXT = LEVEL_TEXT + " m2: the pool's verify_rtx: a cache hit still builds and runs TimeRelativeTransactionVerifier for this transaction/environment and answers the cached entry unchanged, a miss runs the contextual verifier then DaoScriptSizeVerifier (pausable and blocking variants). m3: no write method of StoreTransaction hands the shared read cache to any call (nothing is cached before commit)."
+LEVEL_NOTE = "Partial claim (cache-hit paths of block verification and of the pool's verify_rtx; store write methods never populate the read cache). LRU containers, read-through getters and the relational whole-node statement: outside."
